@@ -52,6 +52,30 @@ let () = iter_lines (fun line ->
     | ["case_diffs"; x; y] -> (match C_case_diffs.run f (zstr x) (z_of_int 0) (zstr y) (z_of_int 0) with Some (v, _) -> string_of_int (sign (int_of_z v)) | None -> "STUCK")
     | ["case_starts"; x; y] -> ret (C_case_starts.run f (zstr x) (z_of_int 0) (zstr y) (z_of_int 0))
     | ["squareroot"; x] -> ret (C_squareroot.run f (zbig x))
+    | ["rblast"; h] ->
+        (* blast() of qmail-remote.c as generated: "S <hex out>" | "P" (perm_partialline) | "E <code>" *)
+        (match C_rblast.run f (zl h) (z_of_int 0) [] (z_of_int 0) with
+         | Some (v, s) -> let c = int_of_z v in if c = 0 then "S " ^ hexz s.C_rblast.a_smtpto__out else if c = -3 then "P" else "E " ^ string_of_int c
+         | None -> "STUCK")
+    | ["sblast"; h; bto] ->
+        (* blast() of qmail-smtpd.c as generated: "D <body> <rest> <hops> F<fail>" | "X" (stray newline) | "N <body>" (input exhausted) *)
+        let inp = zl h in
+        (match C_sblast.run f [Z0] (z_of_int 0) inp (z_of_int 0) (zbig bto) (z_of_int 0) [] with
+         | Some (v, s) ->
+             let c = int_of_z v in
+             if c = -4 then "X" else if c = -9 then "N " ^ hexz s.C_sblast.a_qqt__out else
+             let pos = int_of_z s.C_sblast.v_ssin__pos in
+             let rec drop n l = if n <= 0 then l else match l with [] -> [] | _ :: r -> drop (n - 1) r in
+             "D " ^ hexz s.C_sblast.a_qqt__out ^ " " ^ hexz (drop pos inp) ^ " " ^ bigz (List.hd s.C_sblast.a_hops) ^ " F" ^ bigz s.C_sblast.v_qqt__fail
+         | None -> "STUCK")
+    | ["smtpcode"; h] ->
+        (match C_smtpcode.run f [] (z_of_int 0) (zl h) (z_of_int 0) with
+         | Some (v, s) -> if int_of_z v = -9 then "DROP" else bigz v ^ " " ^ bigz s.C_smtpcode.v_smtpfrom__pos ^ " " ^ hexz s.C_smtpcode.a_smtptext__s
+         | None -> "STUCK")
+    | ["getlen"; h] ->
+        (match C_getlen.run f (zl h) (z_of_int 0) with
+         | Some (v, s) -> let c = int_of_z v in if c = -6 then "res" else if c = -7 then "bad" else if c = -9 then "eof" else "ok " ^ bigz v ^ " " ^ bigz s.C_getlen.v_ssin__pos
+         | None -> "STUCK")
     | ["ip_scan"; h] -> (match C_ip_scan.run f (zstr h) (z_of_int 0) [Z0; Z0; Z0; Z0] with Some (v, s) -> bigz v ^ " " ^ hexz s.C_ip_scan.a_ip__d | None -> "STUCK")
     | ["ip_scanbracket"; h] ->
         (match C_ip_scanbracket.run f (zstr h) (z_of_int 0) [Z0; Z0; Z0; Z0], K_ip_scanbracket.run f (zstr h) (z_of_int 0) [Z0; Z0; Z0; Z0] with
